@@ -40,6 +40,10 @@ func record(args []string) {
 			}
 		}
 		var P, V Matrix
+		// sparse owners: every zero element an explicitly stored entry (half of the histories);
+		// shared: nothing has iterated yet, so T() still shares the scalar of every element
+		storeAll := storage == "sparse" && rng.Intn(2) == 0
+		shared := storeAll
 		hasT := false
 		depth := 0
 		emit := func(ev vh.M) bool {
@@ -75,6 +79,9 @@ func record(args []string) {
 			ev["dims"] = dims
 			ev["obs"] = obs
 			ev["par"] = par
+			if _, ok := ev["it"]; !ok {
+				ev["it"] = [][]int{}
+			}
 			ev["inst"] = in.Storage + "/" + in.TName
 			out.Put(ev)
 			return true
@@ -85,6 +92,15 @@ func record(args []string) {
 				if v != 0 {
 					P.At(k/pc, k%pc).SetFloat64(float64(v))
 				}
+			}
+			if storeAll {
+				zeros := []int{}
+				for k, v := range vals {
+					if v == 0 {
+						zeros = append(zeros, k)
+					}
+				}
+				storeZeros(P, zeros, pc)
 			}
 			V = P
 		})
@@ -124,12 +140,30 @@ func record(args []string) {
 				f = func() { V = V.T() }
 				hasT = true
 				depth++
+			case x == 5 || x == 6:
+				// iterate the view (sparse iterators delete the zero entries they pass)
+				ev = vh.M{"e": "iter"}
+				f = func() {
+					seq := [][]int{}
+					n := 0
+					for it := V.ConstIterator(); it.Ok(); it.Next() {
+						if n++; n > 400 {
+							panic("iterator does not terminate")
+						}
+						i, j := it.Index()
+						if v := int(it.GetConst().GetFloat64()); v != 0 {
+							seq = append(seq, []int{i, j, v})
+						}
+					}
+					ev["it"] = seq
+				}
+				shared = false
 			default:
 				if r*c == 0 {
 					continue
 				}
 				i, j := rng.Intn(r), rng.Intn(c)
-				if storage == "sparse" && hasT && V.ConstAt(i, j).GetFloat64() == 0 {
+				if storage == "sparse" && hasT && !shared && V.ConstAt(i, j).GetFloat64() == 0 {
 					continue // known deviation S2 (sparse T() is a copy of the key map): covered by the replay part
 				}
 				v := 1 + rng.Intn(100)
